@@ -10,6 +10,7 @@ GEN = ['GPolicy.v', 'GChecks.v', 'GParser.v']
 NAMES = ['a', 'b', 'default']
 BODIES = ['role:x', 'role:y', '@', '!', 'rule:a', 'rule:default']
 ROLESETS = [[], ['x'], ['y'], ['x', 'y']]
+FLIP = {'role:x': 'role:y', 'role:y': 'role:x', '@': '!', '!': '@', 'rule:a': '!', 'rule:default': '@'}
 
 
 def spec_decision(rules, default, name, roles, depth=0):
@@ -63,6 +64,10 @@ def run(run, binfo):
                     # carrying the same / another / no default rule of its own
                     c['carrier'] = ['rules_same', 'dict', 'rules_other', 'rules_none'][len(cases) % 4]
                     c['carrier_default'] = 'a' if (len(cases) // 4) % 2 else 'b'
+                    if c['carrier'] == 'rules_same' and (len(cases) // 4) % 2:
+                        c['prehistory'] = {n: FLIP[b] for n, b in rules.items()}
+                    # deny is False, or the not-authorized exception when the caller asked for one
+                    c['do_raise'] = (len(cases) // 3) % 2 == 1
                     cases.append(c)
     run.count('cases', len(cases))
     bad_corr = []
@@ -75,7 +80,8 @@ def run(run, binfo):
             run.count('cyclic_skipped')
             continue
         key = (tuple(sorted(c['rules'].items())), c['default'], c['rule'][1])
-        if tuple(ires[:2]) != ('ret', want):
+        wanted = ('ret', want) if (want or not c['do_raise']) else ('exc', 'PolicyNotAuthorized')
+        if tuple(ires[:2]) != wanted:
             run.violation('decision', 'enforce(%r) on %r default %r roles %r -> %r, documented %r'
                           % (c['rule'][1], c['rules'], c['default'], c['creds']['roles'], ires, want),
                           {'kind': 'failing-input', 'suite': 'spec-c03', 'input': describe(c),
@@ -91,7 +97,7 @@ def run(run, binfo):
                        'input': describe(c), 'model': m, 'observed': i, 'count': len(bad_corr)})
     run.rule = ('complete table: every rule set over %r with bodies %r (or absent) x %d default-rule configurations '
                 '(unset, defined/undefined name, check object, dict, via policy_default_rule option) x queried names x '
-                'role subsets; model vs Enforcer.enforce and an independent reading of the statement; non-trivial = '
+                'role subsets x do_raise, half of the Rules-carried sets written in place over earlier opposite definitions after an undefined name was enforced; model vs Enforcer.enforce and an independent reading of the statement; non-trivial = '
                 'distinct (rule set, default, queried name) with the name undefined' % (names, BODIES, len(defaults)))
     run.exhaustive = tier == 'thorough'
 
@@ -103,4 +109,6 @@ def replay(run, rep):
     c['rule'] = tuple(c['rule'])
     ires, _ = run_impl(c)
     print('observed', ires, 'expected', rep.get('expected'))
-    return tuple(ires[:2]) == ('ret', rep.get('expected'))
+    want = rep.get('expected')
+    wanted = ('ret', want) if (want or not c.get('do_raise')) else ('exc', 'PolicyNotAuthorized')
+    return tuple(ires[:2]) == wanted
